@@ -31,7 +31,12 @@ TEXTS = {
     },
     "C03": {
         "text": "Theorems (Properties/C03.v): the documented formula over the reals is >= 0 for n <= N, antitone in n, 0 for n=0 or N=0 or n=N; "
-                "the f32 implementation's zero guard, u16 conversion guard and its exact shape (one binary32 division, logf, one multiplication). "
+                "the f32 implementation's zero guard, u16 conversion guard and its exact shape (one binary32 division, logf, one multiplication); "
+                "WHOLE ONTOLOGY (C03_every_term_every_kind): calculate_information_content gives EVERY term, for EACH kind independently, "
+                "calculate(records of that kind, the term's annotations of that kind) and changes nothing else; with more than 65 535 records "
+                "of a kind that some term carries no ontology is built (C03_refuses_over_u16). The correspondence run reaches that limit "
+                "(65 535 accepted, 65 536 refused) with a block of add_* calls that the model appends at once, proved equal to the "
+                "call-by-call run for every block and builder state (C03_bulk_block_is_calls, C03_bulk_script). "
                 "The float evaluation is executed bit-exactly (Flocq) against the crate with the runtime's logf as an oracle table: the float "
                 "layer is partial (no theorem about logf).",
         "design_ref": "DESIGN.md §4 C03, §2.6",
